@@ -26,7 +26,9 @@ def gen_filter_case(ctx):
         s = pipe.rs(rng, ln, rng.choice(["ACGT", "ACGTN", "ACGNn"]))
         if rng.random() < 0.4:
             s = s + "GATTACAGA"
-        q = "".join(chr(33 + rng.choice([2, 10, 20, 30, 40])) for _ in s)
+        # (qualities over the whole legal range: long-read instruments report up to Q93)
+        qmenu = rng.choice([[2, 10, 20, 30, 40], [2, 10, 20, 30, 40], [0, 2, 31, 32, 33, 41, 64, 65, 93], [60, 70, 80, 93, 2, 3]])
+        q = "".join(chr(33 + rng.choice(qmenu)) for _ in s)
         reads.append((f"r{i} 1:{rng.choice('YN')}:0:1", s, q))
     argv = ["--no-index"]
     r0 = rng.choice(reads)
